@@ -7,6 +7,7 @@
    constructor model `pool-ctor`. *)
 open Zutil
 open PoolModel
+open PoolCtorNow
 
 let label_of_pc (p : ppc) (k : int) : string = match p with
   | SbNil -> "OnDemandBlockTaskPool.Submit|if task == nil|0"
@@ -203,13 +204,60 @@ let all_pcs : ppc list = [
   WBkLock; WBkNoTasks; WBkIf1; Z1RLock; Z1Defer; Z1Ret; WBkDecr; WBkUnlock1; WBkRet; WBkIf2; Z2RLock; Z2Defer;
   Z2Ret; WBkNewTimer; WBkAdd; GaLock; GaDefer; GaIf; GaSet; GaInc; WBkUnlock2 ]
 
-let labels = List.sort_uniq compare (List.map (fun p -> label_of_pc p 0) all_pcs)
+(* statements that are TEXT-PINNED only (no program counter in the interleaving model): States / sendState /
+   getState / internalState (exercised dynamically by the States consumer of c10-pool-stress) and the With* options;
+   an edit of any of them is reported as a skeleton change *)
+let pinned_labels = [
+  "WithQueueBacklogRate|return func(pool *OnDemandBlockTaskPool) { pool.queueBacklogRate = rate }|0";
+  "WithQueueBacklogRate|pool.queueBacklogRate = rate|0";
+  "WithCoreGo|return func(pool *OnDemandBlockTaskPool) { pool.coreGo = n }|0";
+  "WithCoreGo|pool.coreGo = n|0";
+  "WithMaxGo|return func(pool *OnDemandBlockTaskPool) { pool.maxGo = n }|0";
+  "WithMaxGo|pool.maxGo = n|0";
+  "WithMaxIdleTime|return func(pool *OnDemandBlockTaskPool) { pool.maxIdleTime = d }|0";
+  "WithMaxIdleTime|pool.maxIdleTime = d|0";
+  "OnDemandBlockTaskPool.internalState|for|0";
+  "OnDemandBlockTaskPool.internalState|state := atomic.LoadInt32(&b.state)|0";
+  "OnDemandBlockTaskPool.internalState|if state != stateLocked|0";
+  "OnDemandBlockTaskPool.internalState|return state|0";
+  "OnDemandBlockTaskPool.States|if ctx.Err() != nil|0";
+  "OnDemandBlockTaskPool.States|return nil, ctx.Err()|0";
+  "OnDemandBlockTaskPool.States|if b.interruptCtx.Err() != nil|0";
+  "OnDemandBlockTaskPool.States|return nil, b.interruptCtx.Err()|0";
+  "OnDemandBlockTaskPool.States|statsChan := make(chan State)|0";
+  "OnDemandBlockTaskPool.States|go func() { ticker := time.NewTicker(interval) defer ticker.Stop() for { select { case timeStamp := <-ticker.C: b.sendState(statsChan, timeStamp.UnixNano()) case <-ctx.Done(): b.sendState(statsChan, time.Now().UnixNano()) close(statsChan) return case <-b.interruptCtx.Done(): b.sendState(statsChan, time.Now().UnixNano()) close(statsChan) return } } }()|0";
+  "OnDemandBlockTaskPool.States|ticker := time.NewTicker(interval)|0";
+  "OnDemandBlockTaskPool.States|defer ticker.Stop()|0";
+  "OnDemandBlockTaskPool.States|for|0";
+  "OnDemandBlockTaskPool.States|select|0";
+  "OnDemandBlockTaskPool.States|b.sendState(statsChan, timeStamp.UnixNano())|0";
+  "OnDemandBlockTaskPool.States|case timeStamp := <-ticker.C:|0";
+  "OnDemandBlockTaskPool.States|b.sendState(statsChan, time.Now().UnixNano())|0";
+  "OnDemandBlockTaskPool.States|close(statsChan)|0";
+  "OnDemandBlockTaskPool.States|return|0";
+  "OnDemandBlockTaskPool.States|case <-ctx.Done():|0";
+  "OnDemandBlockTaskPool.States|b.sendState(statsChan, time.Now().UnixNano())|1";
+  "OnDemandBlockTaskPool.States|close(statsChan)|1";
+  "OnDemandBlockTaskPool.States|return|1";
+  "OnDemandBlockTaskPool.States|case <-b.interruptCtx.Done():|0";
+  "OnDemandBlockTaskPool.States|return statsChan, nil|0";
+  "OnDemandBlockTaskPool.sendState|select|0";
+  "OnDemandBlockTaskPool.sendState|case ch <- b.getState(timeStamp):|0";
+  "OnDemandBlockTaskPool.sendState|default:|0";
+  "OnDemandBlockTaskPool.getState|s := State{ PoolState: atomic.LoadInt32(&b.state), GoCnt: b.numOfGo(), QueueSize: cap(b.queue), WaitingTasksCnt: len(b.queue), RunningTasksCnt: atomic.LoadInt32(&b.numGoRunningTasks), Timestamp: timeStamp, }|0";
+  "OnDemandBlockTaskPool.getState|return s|0";
+]
+
+let labels = List.sort_uniq compare (List.map (fun p -> label_of_pc p 0) all_pcs @ pinned_labels)
 let funcs = [ "taskWrapper.Run"; "TaskFunc.Run"; "group.isIn"; "group.add"; "group.delete"; "group.size";
               "OnDemandBlockTaskPool.Submit"; "OnDemandBlockTaskPool.trySubmit";
               "OnDemandBlockTaskPool.allowToCreateGoroutine"; "OnDemandBlockTaskPool.Start";
               "OnDemandBlockTaskPool.numOfGoThatCanBeCreate"; "OnDemandBlockTaskPool.goroutine";
               "OnDemandBlockTaskPool.increaseTotalGo"; "OnDemandBlockTaskPool.decreaseTotalGo";
-              "OnDemandBlockTaskPool.Shutdown"; "OnDemandBlockTaskPool.ShutdownNow"; "OnDemandBlockTaskPool.numOfGo" ]
+              "OnDemandBlockTaskPool.Shutdown"; "OnDemandBlockTaskPool.ShutdownNow"; "OnDemandBlockTaskPool.numOfGo";
+              (* text-pinned *)
+              "OnDemandBlockTaskPool.States"; "OnDemandBlockTaskPool.sendState"; "OnDemandBlockTaskPool.getState";
+              "OnDemandBlockTaskPool.internalState"; "WithQueueBacklogRate"; "WithCoreGo"; "WithMaxGo"; "WithMaxIdleTime" ]
 
 let err_str = function
   | PENone -> "nil" | PEInvalid -> "invalid" | PEClosing -> "closing" | PEStopped -> "stopped"
@@ -244,8 +292,13 @@ type dev =
   | Mod of pev
   | Peek                      (* harness observation: shared fields of the real pool vs the model's *)
   | Settle of int             (* wait until n workers are physically parked in their select *)
+  | TimerDur of int           (* harness observation: the duration worker tid's latest time.NewTimer was given *)
 
-let peek_tid = 90 and settle_tid = 91
+let peek_tid = 90 and settle_tid = 91 and timerdur_tid = 92
+
+(* WithMaxIdleTime: params[12] in ns; "0" = option not given (defaultMaxIdleTime = 10 s); absent = one hour *)
+let idle_ns = ref "3600000000000"
+let lastdur : (int, string) Hashtbl.t = Hashtbl.create 8
 
 let choice_str = function
   | C0 -> "" | CCtx -> " ctx" | CSend None -> " send" | CSend (Some r) -> " send " ^ string_of_int (ni r)
@@ -263,6 +316,7 @@ let line = function
   | Mod (PFinish t) -> Printf.sprintf "STEP %d finish" (ni t)
   | Peek -> Printf.sprintf "CALL %d peek" peek_tid
   | Settle n -> Printf.sprintf "CALL %d settle %d" settle_tid n
+  | TimerDur t -> Printf.sprintf "CALL %d timerdur %d" timerdur_tid t
 
 let parse (s : string) : dev =
   let t x = nn (int_of_string x) in
@@ -274,6 +328,7 @@ let parse (s : string) : dev =
   | ["CALL"; a; "shutdownnow"] -> Mod (PCall (t a, OpShutdownNow))
   | ["CALL"; _; "peek"] -> Peek
   | ["CALL"; _; "settle"; n] -> Settle (int_of_string n)
+  | ["CALL"; _; "timerdur"; n] -> TimerDur (int_of_string n)
   | ["STEP"; a] -> Mod (PStep (t a, C0))
   | ["STEP"; a; "ctx"] -> Mod (PStep (t a, CCtx))
   | ["STEP"; a; "send"] -> Mod (PStep (t a, CSend None))
@@ -309,6 +364,7 @@ let apply (c : pcfg) (e : dev) : (pcfg * (int * string) list) option =
      | None -> None)
   | Peek -> Some (c, [(peek_tid, "ret " ^ snapshot c)])
   | Settle n -> if n = nparked c then Some (c, [(settle_tid, "ret ok")]) else None
+  | TimerDur t -> Some (c, [(timerdur_tid, "ret " ^ (try Hashtbl.find lastdur t with Not_found -> "none"))])
 
 let threads (c : pcfg) = List.map (fun (t, th) -> (ni t, th)) c.c_thr
 let thread (c : pcfg) (t : int) = List.assoc_opt t (threads c)
@@ -350,7 +406,8 @@ let gen_params rng =
   let st = Random.State.int rng 6 in
   let ncl = 2 + Random.State.int rng 3 in
   let nt = 3 + Random.State.int rng 6 in
-  List.map string_of_int [init; core; mx; cap; rn; rd; ncl; st; nt]
+  let idle = pick ["3600000000000"; "1500000000"; "250000"; "7"; "0"] in
+  List.map string_of_int [init; core; mx; cap; rn; rd; ncl; st; nt] @ ["1"; "1"; "1"; idle]
 
 let program : pop list ref = ref []      (* client operations still to be issued, in order *)
 let next_task = ref 0
@@ -363,6 +420,8 @@ let init_with (fixa : bool) (fixb : bool) (fixc : bool) (params : string list) :
   let iv = Array.of_list (List.map int_of_string params) in
   let g k d = if k < Array.length iv then iv.(k) else d in
   nclients := g 6 3; style := g 7 0; ntasks := g 8 6;
+  idle_ns := (match List.nth_opt params 12 with Some "0" -> "10000000000" | Some d -> d | None -> "3600000000000");
+  Hashtbl.reset lastdur;
   shutdown_returned := false; next_task := 0; cur := -1; Hashtbl.reset delayed; Hashtbl.reset loops; peeked_at_end := false;
   pinit { i_init = z (g 0 1); i_core = z (g 1 1); i_max = z (g 2 1); i_cap = z (g 3 0); i_rn = z (g 4 0);
           i_rd = z (g 5 1); i_fixa = fixa; i_fixb = fixb; i_base = nn 100; i_fixc = fixc }
@@ -424,7 +483,7 @@ let nclient_threads (c : pcfg) = List.length (List.filter (fun (t, _) -> is_clie
 
 let dev_tid = function
   | Mod (PCall (t, _)) | Mod (PStep (t, _)) | Mod (PCancel t) | Mod (PFire t) | Mod (PFinish t) -> ni t
-  | Peek -> peek_tid | Settle _ -> settle_tid
+  | Peek -> peek_tid | Settle _ -> settle_tid | TimerDur _ -> timerdur_tid
 
 let shuffle rng (l : 'a list) : 'a list =
   let a = Array.of_list l in
@@ -568,6 +627,7 @@ let tags (c : pcfg) (e : dev) (c' : pcfg) : string list =
     | Mod (PFinish _) -> ["task-finishes"]
     | Peek -> ["peek"]
     | Settle _ -> ["settle"]
+    | TimerDur _ -> ["timer-duration-observed"]
     | Mod (PCall (t, _)) -> Hashtbl.remove loops (ni t); [] in
   base
   @ (if List.length (holders c) >= 1 && (match e with Mod (PStep (t, _)) -> (match th_of t with Some th -> (match th.pc with TsCas | StCas | ShCas | SnCas | SbChkClosing | SbChkStopped -> true | _ -> false) | None -> false) | _ -> false)
@@ -603,6 +663,7 @@ let tagtbl : (string, int) Hashtbl.t = Hashtbl.create 64
 let bump t = Hashtbl.replace tagtbl t (1 + (try Hashtbl.find tagtbl t with Not_found -> 0))
 let hit_nontrivial = ref false
 
+let pending_dur : int option ref = ref None
 let norm = Lockstep.norm
 let show l = String.concat " ; " (List.map (fun (t, s) -> Printf.sprintf "%d %s" t s) l)
 
@@ -650,7 +711,11 @@ let run_schedule buf name params (cfg0 : pcfg) ~(strict : bool) (next : pcfg -> 
          if List.exists (fun t -> List.mem t nontrivial) tg then hit_nontrivial := true;
          (match a with
           | Mod (PStep (t, _)) ->
-            (match thread !cfg (ni t) with Some th when th.pc = ShRet -> shutdown_returned := true | _ -> ())
+            (match thread !cfg (ni t) with
+             | Some th when th.pc = ShRet -> shutdown_returned := true
+             | Some th when th.pc = WNewTimer -> Hashtbl.replace lastdur (ni t) "0"; pending_dur := Some (ni t)
+             | Some th when th.pc = WBkNewTimer -> Hashtbl.replace lastdur (ni t) !idle_ns; pending_dur := Some (ni t)
+             | _ -> ())
           | _ -> ());
          cfg := c'; incr k; true)
   in
@@ -683,7 +748,12 @@ let run_schedule buf name params (cfg0 : pcfg) ~(strict : bool) (next : pcfg -> 
       end;
       if !continue then begin
         note_chosen e;
+        pending_dur := None;
         if not (exec_one e) then continue := false
+        else if not strict then
+          (match !pending_dur with
+           | Some t -> pending_dur := None; if not (exec_one (TimerDur t)) then continue := false
+           | None -> ())
       end
   done;
   if !ok then (match final_check !cfg with
@@ -713,8 +783,10 @@ let main (args : string list) =
        let params =
          (* focus: c11 -> racing submitters / lifecycle; c12 -> eager timers around Shutdown; c10 -> everything *)
          (match !focus, params with
-          | "c11", [a; b; c; d; e; f; g; _; h] when i mod 2 = 0 -> [a; b; c; d; e; f; string_of_int (max 3 (int_of_string g)); "5"; h]
-          | "c12", [a; b; c; d; e; f; g; _; h] when i mod 2 = 0 -> [a; b; c; d; e; f; g; (if i mod 4 = 0 then "2" else "4"); h]
+          | "c11", (a :: b :: c :: d :: e :: f :: g :: _ :: rest) when i mod 2 = 0 ->
+            a :: b :: c :: d :: e :: f :: string_of_int (max 3 (int_of_string g)) :: "5" :: rest
+          | "c12", (a :: b :: c :: d :: e :: f :: g :: _ :: rest) when i mod 2 = 0 ->
+            a :: b :: c :: d :: e :: f :: g :: (if i mod 4 = 0 then "2" else "4") :: rest
           | _ -> params) in
        let cfg0 = init params in
        program := gen_program rng;
@@ -758,7 +830,10 @@ let () = Registry.register "pool-lockstep" main
 
 (* sequential constructor differential (C11 constructor_rejects): one case per stdin line
    "<initGo> <queueSize> [core:n] [max:n] [rate:a/b] ..." -> "err" | "ok init=.. core=.. max=.. cap=.. rate=a/b" *)
-let ctor_main (_ : string list) =
+(* `pool-ctor` = the constructor as it is now (initGo > math.MaxInt32 rejected: PoolCtorNow.pool_new_now);
+   `pool-ctor trunc` = the pinned constructor that truncated initGo to int32 (pool_new_trunc) *)
+let ctor_main (args : string list) =
+  let ctor = (match args with "trunc" :: _ -> pool_new_trunc | _ -> pool_new_now) in
   iter_lines (fun l ->
       match words l with
       | ig :: qs :: opts ->
@@ -768,7 +843,7 @@ let ctor_main (_ : string list) =
             | ["max"; n] -> Some (OMax (z_of_string n))
             | ["rate"; r] -> (match String.split_on_char '/' r with [a; b] -> Some (ORate (z_of_string a, z_of_string b)) | _ -> None)
             | _ -> None) opts in
-        (match pool_new (z_of_string ig) (z_of_string qs) os with
+        (match ctor (z_of_string ig) (z_of_string qs) os with
          | CtErr -> print_endline "err"
          | CtOk (i, c, m, q, a, b) ->
            Printf.printf "ok init=%s core=%s max=%s cap=%s rate=%s/%s\n" (z_to_string i) (z_to_string c) (z_to_string m)
